@@ -17,13 +17,41 @@
 #
 # vim: set fileencoding=utf-8 :
 
+from collections import OrderedDict
+
 from ...BoundaryCondition.CConversionBoundaryCondition import CConversionBoundaryCondition
+from ...Surface.ConversionSurfaceMCNPToT4 import convert_mcnp_surface
+from ...Volume.ConstructVolumeT4 import extract_used_surfaces
 
 
-def writeT4BoundCond(dic_surf_mcnp, ofile):
+def locate_surfaces(d_boundCond, dic_surf_mcnp, dic_surface_t4, dic_volume):
+    '''Associate the boundary conditions to the surfaces that are actually
+    written in the TRIPOLI-4 geometry. The MCNP surface may have been merged
+    into an identical surface by the de-duplication, or it may not bound any
+    written cell (in which case the boundary condition is dropped).'''
+    used = extract_used_surfaces(volume for volume in dic_volume.values()
+                                 if not volume.fictive)
+    located = OrderedDict()
+    for key, bound_cond in d_boundCond.items():
+        if key in used:
+            located.setdefault(key, bound_cond)
+            continue
+        surf = convert_mcnp_surface(key, dic_surf_mcnp[key])[0][0]
+        for other in sorted(used):
+            if dic_surface_t4[other] == surf:
+                located.setdefault(other, bound_cond)
+                break
+    return located
+
+
+def writeT4BoundCond(dic_surf_mcnp, ofile, dic_surface_t4=None,
+                     dic_volume=None):
     '''Method writing GeomComp to the T4 input file.'''
     d_boundCond = CConversionBoundaryCondition(
         dic_surf_mcnp).conversionBoundCond()
+    if dic_surface_t4 is not None and dic_volume is not None:
+        d_boundCond = locate_surfaces(d_boundCond, dic_surf_mcnp,
+                                      dic_surface_t4, dic_volume)
     if not d_boundCond:
         return
     ofile.write("\nBOUNDARY_CONDITION\n")
